@@ -33,17 +33,26 @@ type KeyID string
 // SignJSON signs a JSON object returning a copy signed with the given key.
 // https://matrix.org/docs/spec/server_server/unstable.html#signing-json
 func SignJSON(signingName string, keyID KeyID, privateKey ed25519.PrivateKey, message []byte) (signed []byte, err error) {
-	preserve := struct {
-		Signatures map[string]map[KeyID]spec.Base64Bytes `json:"signatures"`
-		Unsigned   spec.RawJSON                          `json:"unsigned"`
-	}{
-		Signatures: map[string]map[KeyID]spec.Base64Bytes{},
-	}
-	if err = json.Unmarshal(message, &preserve); err != nil {
+	// Decode into a map rather than a struct: encoding/json matches struct
+	// fields case-insensitively, which would treat members such as
+	// "Unsigned" or "SIGNATURES" as the real "unsigned" / "signatures".
+	var object map[string]spec.RawJSON
+	if err = json.Unmarshal(message, &object); err != nil {
 		return nil, err
 	}
+	preserve := struct {
+		Signatures map[string]map[KeyID]spec.Base64Bytes
+		Unsigned   spec.RawJSON
+	}{
+		Unsigned: object["unsigned"],
+	}
+	if raw, ok := object["signatures"]; ok {
+		if err = json.Unmarshal(raw, &preserve.Signatures); err != nil {
+			return nil, err
+		}
+	}
 	if preserve.Signatures == nil {
-		// "signatures": null resets the map made above
+		// absent, or "signatures": null
 		preserve.Signatures = map[string]map[KeyID]spec.Base64Bytes{}
 	}
 	if message, err = sjson.DeleteBytes(message, "signatures"); err != nil {
@@ -84,14 +93,19 @@ func SignJSON(signingName string, keyID KeyID, privateKey ed25519.PrivateKey, me
 
 // ListKeyIDs lists the key IDs a given entity has signed a message with.
 func ListKeyIDs(signingName string, message []byte) ([]KeyID, error) {
-	var object struct {
-		Signatures map[string]map[KeyID]json.RawMessage `json:"signatures"`
-	}
+	// A map, not a struct: struct fields match member names case-insensitively.
+	var object map[string]json.RawMessage
 	if err := json.Unmarshal(message, &object); err != nil {
 		return nil, err
 	}
+	var signatures map[string]map[KeyID]json.RawMessage
+	if raw, ok := object["signatures"]; ok {
+		if err := json.Unmarshal(raw, &signatures); err != nil {
+			return nil, err
+		}
+	}
 	var result []KeyID
-	for keyID := range object.Signatures[signingName] {
+	for keyID := range signatures[signingName] {
 		result = append(result, keyID)
 	}
 	return result, nil
